@@ -1375,6 +1375,7 @@ func (c *Ctx) akaRules(r *Report, prefix, mode string) {
 		r.Check(dset[s.K] || hasDefault, ruleC, "setter case "+s.K, s.Pos, "decoded by case or default", "the setter accepts attribute type "+s.K+" but the decoder neither has a case for it nor a default")
 	}
 	c.akaScalingRule(r, prefix, um, setCases)
+	c.akaLengthGuardRule(r, prefix, um, setCases)
 	// a reference rule: claimed by the properties that speak about the RFC layout or about peers that are not
 	// this library (C05 decode side, C14, C15) and by C12, whose canonical datagrams are built by an independent
 	// encoder; not by the self round trip C03
